@@ -1,5 +1,7 @@
 // C20 schedule-replay driver for metrics-util/src/recoverable.rs.
-// stdin: `<prog>|<prog>|... ; <tid> ...`   prog = E<n> (n emissions) | R (into_inner) | D (drop handle)
+// stdin: `<prog>|<prog>|... ; <tid> ...`   prog = E<n> (n emissions) | R (into_inner) | D (drop handle);
+//   a leading `u` (uE2, uR, uD) runs that thread's program from a destructor while the thread is
+//   unwinding (std::thread::panicking() is true): the calling context must make no difference
 // stdout: `<t>:<site> ... ; <res>,<res>|... ; <done> ; <drops> ; <late_entry 0/1>`
 //   res = X (reached) | I (inert) | R<inside>:<drops> (recovered) | H (handle dropped)
 use metrics::{Counter, Gauge, Histogram, Key, KeyName, Metadata, Recorder, SharedString, Unit, Level};
@@ -44,6 +46,22 @@ fn emit(rec: &dyn Recorder, k: usize) {
     }
 }
 
+fn in_unwind(f: Box<dyn FnOnce() + Send>, on_panic: Box<dyn FnOnce() + Send>) -> Box<dyn FnOnce() + Send> {
+    struct G(Option<Box<dyn FnOnce() + Send>>, Option<Box<dyn FnOnce() + Send>>);
+    impl Drop for G {
+        fn drop(&mut self) {
+            assert!(std::thread::panicking());
+            // a panic of the code under test must not escape a destructor during cleanup (that aborts
+            // the process): catch it here and record it as an outcome no model run has
+            let f = self.0.take().unwrap();
+            if std::panic::catch_unwind(std::panic::AssertUnwindSafe(f)).is_err() { (self.1.take().unwrap())() }
+        }
+    }
+    Box::new(move || {
+        let _ = std::panic::catch_unwind(std::panic::AssertUnwindSafe(move || { let _g = G(Some(f), Some(on_panic)); std::panic::resume_unwind(Box::new(0u8)); }));
+    })
+}
+
 fn run_case(line: &str) -> String {
     let (progs, sched) = line.split_once(';').unwrap();
     let progs: Vec<String> = progs.trim().split('|').map(|p| p.trim().to_string()).collect();
@@ -57,8 +75,11 @@ fn run_case(line: &str) -> String {
     let recovered: Arc<Mutex<Option<Dbl>>> = Arc::new(Mutex::new(None));
     let results: Arc<Mutex<Vec<Vec<String>>>> = Arc::new(Mutex::new(vec![Vec::new(); progs.len()]));
     let mut threads: Vec<Box<dyn FnOnce() + Send>> = Vec::new();
+    let results2 = results.clone();
     for (tid, p) in progs.iter().cloned().enumerate() {
         let results = results.clone();
+        let (unw, p) = match p.strip_prefix('u') { Some(r) => (true, r.to_string()), None => (false, p) };
+        let before = threads.len();
         if let Some(n) = p.strip_prefix('E') {
             let n: usize = n.parse().unwrap();
             let w = wrapped.clone();
@@ -89,6 +110,12 @@ fn run_case(line: &str) -> String {
                 drop(hd);
                 results.lock().unwrap()[tid].push("H".to_string());
             }));
+        }
+        assert_eq!(threads.len(), before + 1);
+        if unw {
+            let f = threads.pop().unwrap();
+            let res2 = results2.clone();
+            threads.push(in_unwind(f, Box::new(move || res2.lock().unwrap()[tid].push("M".to_string()))));
         }
     }
     let out = sched::run(&sched, threads, 100000);
